@@ -41,6 +41,21 @@ type C04Node struct {
 	DecoyT    time.Time           `valid:"required"`
 	DecoyTP   *time.Time          `valid:"exist"`
 	Ints      []int               `valid:"exist"`
+	C04Emb    `valid:"exist"`      // embedded, marked: validated under the path Parent.C04Emb
+	C04DecoyEmb                    // embedded, unmarked: never validated
+	*C04EmbP  `valid:"required|m_embp"`
+}
+
+type C04Emb struct {
+	EX string `valid:"required|m_ex"`
+}
+
+type C04DecoyEmb struct {
+	DecoyEX string `valid:"required|m_decoy_ex"`
+}
+
+type C04EmbP struct {
+	EPX int `valid:"ge=3|m_epx"`
 }
 
 type C04Leaf struct {
@@ -125,6 +140,12 @@ func c04Node(rng *rand.Rand, depth int) *C04Node {
 	n.DecoyTP = &time.Time{}
 	if rng.Intn(2) == 0 {
 		n.Ints = []int{1, 2}
+	}
+	if rng.Intn(2) == 0 {
+		n.C04Emb.EX = "e"
+	}
+	if rng.Intn(3) != 0 {
+		n.C04EmbP = &C04EmbP{EPX: rng.Intn(6)}
 	}
 	return n
 }
